@@ -334,4 +334,20 @@ def finish(cov, st):
     vc = {k[5:]: v for k, v in st.n.items() if k.startswith('viol:')}
     if vc:
         cov['violation_classes'] = vc
+    if st.n.get('aborted_early'):
+        cov['exhaustive'] = False
+        cov['aborted_early'] = 'stopped after %d violations' % st.n.get('violations', 0)
     return cov, st.violations
+
+
+def collect(st, results, limit=400):
+    """merge worker results; once `limit` violations are known nothing more is learnt by going on, so the
+    exploration stops early (recorded in the evidence as aborted_early -- the run is then not exhaustive)"""
+    for r in results:
+        st.merge(r)
+        if st.n.get('violations', 0) >= limit:
+            st.n['aborted_early'] = 1
+            break
+    if hasattr(results, 'close'):
+        results.close()
+    return st
